@@ -119,6 +119,9 @@ class _OpxRange(ExcelWrapper.RangeData):
             elif formula.startswith(ARRAY_FORMULA_NAME):
                 # These are CSE Array formulas as encoded from sheet
                 params = formula[len(ARRAY_FORMULA_NAME) + 1:-1].rsplit(',', 4)
+                if params[3] == params[4] == '1':
+                    # a CSE Array formula entered into this one cell
+                    return '={%s}' % params[0]
                 start_row = cell.row - int(params[1]) + 1
                 start_col_idx = cell.col_idx - int(params[2]) + 1
                 end_row = start_row + int(params[3]) - 1
@@ -293,11 +296,9 @@ class ExcelOpxWrapper(ExcelWrapper):
                             ws[addr.coordinate] = ARRAY_FORMULA_FORMAT % (
                                 formula.text[1:], i, j, *ref_addr.size)
                 else:
-                    # ::TODO:: At some point consider dropping support for openpyxl < 3.0.8
-                    # This has the effect of replacing the ArrayFormula object with just the
-                    # formula text. This matches the openpyxl < 3.0.8 behavior, at some point
-                    # consider using the new behavior.
-                    ws[ref_addr.coordinate] = ws[ref_addr.coordinate].value.text
+                    # an array formula entered into one cell is an array formula
+                    ws[ref_addr.coordinate] = ARRAY_FORMULA_FORMAT % (
+                        ws[address].value.text[1:], 1, 1, 1, 1)
 
             # compatibility for workbooks that still set legacy
             # worksheet.formula_attributes directly
